@@ -1,12 +1,12 @@
 # -*- coding: utf-8 -*-
 """C02 — Comments, pragmas and preprocessor lines survive fixing verbatim."""
 from props import _pipeline
-from pyvc.checklib import Check
+from pyvc.checklib import Check, run_selftest
 from pyvc.engine import Engine
 
 META = _pipeline.meta('C02')
 
-DEDUCTIVE = ['vsg.vhdlFile.vhdlFile.vhdlFile.fix_blank_lines', 'vsg.vhdlFile.vhdlFile.vhdlFile.fix_trailing_whitespace', 'vsg.vhdlFile.utils.fix_blank_lines', 'vsg.vhdlFile.utils.fix_trailing_whitespace', 'vsg.rules.token_case.token_case._fix_violation', 'vsg.rules.whitespace_between_tokens.Rule._fix_violation', 'vsg.rules.token_indent.token_indent._fix_violation']
+DEDUCTIVE = ['vsg.vhdlFile.classify.comment.classify_single_line_comment', 'vsg.vhdlFile.vhdlFile.vhdlFile.fix_blank_lines', 'vsg.vhdlFile.vhdlFile.vhdlFile.fix_trailing_whitespace', 'vsg.vhdlFile.utils.fix_blank_lines', 'vsg.vhdlFile.utils.fix_trailing_whitespace', 'vsg.rules.token_case.token_case._fix_violation', 'vsg.rules.whitespace_between_tokens.Rule._fix_violation', 'vsg.rules.token_indent.token_indent._fix_violation']
 
 
 def run():
@@ -22,4 +22,6 @@ def run():
     c.bounded["read_vhdlfile"] = {"evaluations": total, "distinct_nontrivial": total, "exhaustive": True, "rule": "every short string over line-separator-like characters written as UTF-8 / Latin-1 and read back by the real read_vhdlfile; expected = split at LF/CRLF/CR only"}
     if why:
         c.findings.append(Finding("bounded", "read_vhdlfile", why, {"function": "vsg.vhdlFile.utils.read_vhdlfile", "observed": why}, why[:60]))
+    if c.tier == "thorough":
+        run_selftest(c, ["mutants_comment.py"], lambda eng: ["vsg.vhdlFile.classify.comment.classify_single_line_comment"])
     return c.finish({"explanation": META["text"]})
